@@ -370,6 +370,10 @@ def _trace_check(ctx, base):
         dict(method="__WRITE__", path="collection-root/user/cal/.secret.ics", data=secret),
         dict(method="__WRITE__", path="collection-root/user/.hiddencol/.Radicale.props", data='{"tag": "VCALENDAR"}'),
         dict(method="__WRITE__", path="collection-root/user/.hiddencol/s.ics", data=secret),
+        # residue of interrupted atomic writes inside the internal cache folders
+        dict(method="__WRITE__", path="collection-root/user/cal/.Radicale.cache/history/.Radicale.tmp-resid1/e9.ics", data="x"),
+        dict(method="__WRITE__", path="collection-root/user/cal/.Radicale.cache/item/.Radicale.tmp-resid2/e9.ics", data="x"),
+        dict(method="__WRITE__", path="collection-root/user/cal/.Radicale.cache/sync-token/.Radicale.tmp-resid3/tok", data="x"),
     ]
     for i, r in enumerate(base_reqs):
         r["mark"] = "base%d" % i
@@ -569,9 +573,11 @@ def _trace_check(ctx, base):
             if reserved_target(_up(r["headers"]["HTTP_DESTINATION"]).path):
                 first_violation = first_violation or ("MOVE onto a reserved name answered %s" % res.get("status"), r, None)
         if r.get("channel") == "listing":
-            for rname in ("e1.ics~", ".secret.ics", ".hiddencol", "e1.ics%7E", "%2Esecret", "%2Ehiddencol"):
+            for rname in ("e1.ics~", ".secret.ics", ".hiddencol", "e1.ics%7E", "%2Esecret", "%2Ehiddencol", ".Radicale.tmp", "%2ERadicale"):
                 if rname in body:
                     first_violation = first_violation or ("a listing names the reserved entry %r" % rname, r, None)
+            if (res.get("status") or 0) >= 500:
+                first_violation = first_violation or ("a listing fails (%s) in the presence of reserved entries / write residue" % res.get("status"), r, None)
         if "DECOY-SECRET" in body:
             first_violation = first_violation or ("decoy content in response", r, None)
         if r.get("mark", "").startswith("h") and res.get("status") == 200 and r["method"] == "GET":
